@@ -80,6 +80,10 @@ def replay(prop: str, path: str) -> int:
     p = subprocess.run(cmd, cwd=VERIF, env=child_env(prop), capture_output=True, text=True, timeout=900)
     sys.stdout.write(p.stdout)
     sys.stderr.write(p.stderr[-4000:])
+    if p.returncode < 0:
+        print(f"VIOLATION property={prop} replay={path}")
+        print(f"  class={prop}/process-died detail=the replay was killed by signal {-p.returncode}")
+        return 1
     return p.returncode
 
 
@@ -130,7 +134,7 @@ def main() -> int:
             procs.append((s, out, run_worker(prop, seed, tier, s, jobs, count, budget, out, env_extra=wenv)))
         det_out = os.path.join(tmp, "det.json")
         det = run_worker(prop, seed, tier, 0, 1, count, 0, det_out, extra=("det",), hashseed="1234")
-        results, harness_errors = [], []
+        results, harness_errors, crashes = [], [], []
         hard = (budget * 2 + 900) if budget else 2400
         for s, out, p in procs + [(-1, det_out, det)]:
             try:
@@ -139,6 +143,13 @@ def main() -> int:
                 p.kill()
                 so, _ = p.communicate()
                 harness_errors.append(f"worker {s} wall-clock kill\n{so[-2000:]}")
+                continue
+            if p.returncode < 0 and os.path.exists(out[:-5] + ".cur") and s >= 0:
+                # the interpreter was killed by a signal while executing library code on an
+                # in-domain scenario: reported as a violation iff the scenario kills a fresh
+                # interpreter again (see finish_crashes)
+                with open(out[:-5] + ".cur") as fp:
+                    crashes.append((s, p.returncode, json.load(fp), so[-1500:]))
                 continue
             if p.returncode != 0 or not os.path.exists(out):
                 harness_errors.append(f"worker {s} exit {p.returncode}\n{so[-3000:]}")
@@ -153,9 +164,35 @@ def main() -> int:
         if harness_errors:
             print("HARNESS-ERROR " + "\n".join(harness_errors))
             return 2
+        if crashes:
+            rc_c = finish_crashes(prop, crashes)
+            if rc_c:
+                return rc_c
         return finish(prop, meta, tier, seed, results, det_res, t0, t_warm, jobs, a.no_evidence)
     finally:
         shutil.rmtree(tmp, ignore_errors=True)
+
+
+def finish_crashes(prop, crashes) -> int:
+    os.makedirs(os.path.join(VERIF, "replays"), exist_ok=True)
+    rc = 0
+    for s, code, sc, tail in crashes[:3]:
+        sc = dict(sc)
+        sc["expect"] = {"class": f"{prop}/process-died", "signal": -code,
+                        "detail": "the interpreter was killed by a signal inside library code (memory-unsafe kernel call?)"}
+        name = f"{prop}-crash-{hashlib.sha1(json.dumps(sc, sort_keys=True).encode()).hexdigest()[:12]}.json"
+        path = os.path.join(VERIF, "replays", name)
+        with open(path, "w") as fp:
+            json.dump(sc, fp, indent=1, sort_keys=True)
+        p = subprocess.run([PY, "-m", "sim.replay", prop, path], cwd=VERIF, env=child_env(prop), capture_output=True, text=True, timeout=900)
+        if p.returncode < 0:
+            print(f"VIOLATION property={prop} replay={path}")
+            print(f"  class={prop}/process-died run={sc.get('run')} detail=worker {s} and the replay both died with signal {-p.returncode}")
+            rc = 1
+        else:
+            print(f"HARNESS-ERROR worker {s} died with signal {-code} at run {sc.get('run')} but the replay did not (rc={p.returncode})\n{tail}")
+            return 2
+    return rc
 
 
 def finish(prop, meta, tier, seed, results, det_res, t0, t_warm, jobs, no_evidence) -> int:
